@@ -793,8 +793,17 @@ pub fn png_chunk(kind: &[u8; 4], payload: &[u8]) -> Vec<u8> {
 
 /// consecutive IDAT chunks carrying zlib(header, stream, adler); `sizes` are
 /// the payload sizes of all chunks but the last, which takes the rest
+/// zlib headers that announce a window smaller than 32K (what libpng writes for small images): CMF with
+/// CINFO 6..0 and the FLG that makes the pair a multiple of 31
+pub const SMALL_WINDOW_HEADERS: [[u8; 2]; 4] = [[0x68, 0x81], [0x58, 0x85], [0x38, 0x8d], [0x08, 0x99]];
+
+/// hdr 0..3: the four 32K headers; 4..7: a small-window header (PNG payloads only: behind a bare zlib
+/// header the property names the 32K ones)
 pub fn wrap_idat(stream: &[u8], plain: &[u8], hdr: usize, sizes: &[usize]) -> Vec<u8> {
-    let z = wrap_zlib(stream, plain, hdr);
+    let mut z = wrap_zlib(stream, plain, hdr);
+    if hdr % 8 >= 4 {
+        z[..2].copy_from_slice(&SMALL_WINDOW_HEADERS[hdr % 4]);
+    }
     let mut v = Vec::new();
     let mut pos = 0;
     for &s in sizes {
